@@ -199,6 +199,58 @@ static void range_probe(Wd::sbx& sb, const char* tn, mon::Rng& rng)
   }
 }
 
+// copy_memory_or_deny_access at the end of the region: the buffer it reads is num SANDBOX-sized elements; a buffer whose last
+// element starts inside the region and ends behind it must be refused, one that ends flush with the region must be served
+template<typename T>
+static void deny_edge(Wd::sbx& sb, const char* tn)
+{
+  using G = ref::guest_t<Cfg, T>;
+  const uint64_t total = sb.get_total_memory();
+  for (size_t num : { size_t(1), size_t(3) }) {
+    for (int64_t back = 1; back <= int64_t(sizeof(G) * num) + int64_t(sizeof(G)); back++) {
+      uint64_t off = total - back;
+      if (off % alignof(G) != 0) continue; // (aligned cells only)
+      bool fits = back >= int64_t(sizeof(G) * num);
+      auto p = Wd::template tptr<T>(sb, off);
+      bool copied = false;
+      T* out = nullptr;
+      mon::ctx("copy_memory_or_deny_access/%s x %zu | buffer starts %lld bytes before the end of the region", tn, num, (long long)back);
+      bool ab = mon::aborts([&] { out = copy_memory_or_deny_access(sb, p, num, false, copied); });
+      mon::evals();
+      if (fits) {
+        if (ab || !out) report("copy_memory_or_deny_access", tn, "legal-request-failed", mon::fmt("%s, %zu elements %lld bytes before the end", Cfg::name, num, (long long)back));
+        else n_ok++;
+      } else {
+        if (!ab) report("copy_memory_or_deny_access", tn, "source-range-leaves-the-sandbox",
+                        mon::fmt("%s: %zu element(s) of %zu bytes (sandbox size) starting %lld bytes before the end of the region were read without abort", Cfg::name, num, sizeof(G), (long long)back));
+        else n_ok++;
+      }
+      if (!ab && out && copied) free(out);
+    }
+  }
+}
+
+// malloc_in_sandbox<T>(count) asks the backend for count images of T under the sandbox's ABI - for every spelling of T: plain,
+// cv-qualified, arrays, cv-qualified arrays (the image of `const S` is the image of S)
+template<typename T, typename T_Base>
+static void malloc_size(Wd::sbx& sb, const char* tn, size_t elems_per_T)
+{
+  for (uint32_t count : { 1u, 3u }) {
+    sb.get_sandbox_impl()->brk = 4096;
+    vsbx_ev.last_malloc_size = 0;
+    mon::ctx("malloc_in_sandbox<%s>(%u) | size requested from the backend", tn, count);
+    bool ab = mon::aborts([&] { auto p = sb.template malloc_in_sandbox<T>(count); if (!p) throw std::runtime_error("null"); });
+    mon::evals();
+    uint64_t want = static_cast<uint64_t>(sizeof(tainted_volatile<T_Base, S>)) * elems_per_T * count;
+    if (ab) report("malloc_in_sandbox", tn, "legal-request-failed", Cfg::name);
+    else if (vsbx_ev.last_malloc_size != want)
+      report("malloc_in_sandbox", tn, "block-not-sized-by-the-sandbox-image",
+             mon::fmt("%s: malloc_in_sandbox<%s>(%u) asked the backend for %llu bytes; %u object(s) of %zu element(s) whose image is %zu bytes need %llu", Cfg::name, tn, count,
+                      (unsigned long long)vsbx_ev.last_malloc_size, count, elems_per_T, sizeof(tainted_volatile<T_Base, S>), (unsigned long long)want));
+    else n_ok++;
+  }
+}
+
 int main(int argc, char** argv)
 {
   mon::init("C10", argc, argv);
@@ -212,6 +264,20 @@ int main(int argc, char** argv)
   probe<char16_t>(sb, "char16_t", rng);
   probe<float>(sb, "float", rng);
   probe<double>(sb, "double", rng);
+  deny_edge<char>(sb, "char");
+  deny_edge<short>(sb, "short");
+  deny_edge<char16_t>(sb, "char16_t");
+  deny_edge<wchar_t>(sb, "wchar_t");
+  deny_edge<float>(sb, "float");
+  deny_edge<double>(sb, "double");
+  malloc_size<Pair, Pair>(sb, "Pair", 1);
+  malloc_size<const Pair, Pair>(sb, "const Pair", 1);
+  malloc_size<Pair[3], Pair>(sb, "Pair[3]", 3);
+  malloc_size<const Pair[2], Pair>(sb, "const Pair[2]", 2);
+  malloc_size<short, short>(sb, "short", 1);
+  malloc_size<const short, short>(sb, "const short", 1);
+  malloc_size<const short[5], short>(sb, "const short[5]", 5);
+  malloc_size<const long* const, long*>(sb, "const long* const", 1);
   range_probe<char>(sb, "char", rng);
   range_probe<short>(sb, "short", rng);
   range_probe<char16_t>(sb, "char16_t", rng);
